@@ -1,6 +1,6 @@
 #!/bin/bash
 # usage: tools/seeded_reeval.sh [-j N] [names...]   re-confirms kept seeded changes (seeded/<name>/) against the CURRENT
-# /repo and the CURRENT checks: clean demo, patch applies, repo test-suite, demo fails, checks (the property broken plus
+# /repo and the CURRENT checks: clean demo, patch applies, repo test-suite (unless SEED_SKIP_TESTS=1), demo fails, checks (the property broken plus
 # every check recorded as catching it). Rewrites meta.json "confirmed" for each; prints one line per seed.
 cd "$(dirname "$0")/.."
 j=2
@@ -15,7 +15,7 @@ print(' '.join(ids))")
   line=$(tools/seeded_eval.sh $d $ids 2>&1 | tail -1)
   caught=$(echo "$line" | grep -o 'C[0-9][0-9]:rc=1' | cut -d: -f1 | tr '\n' ' ')
   echo "$name | $line"
-  case "$line" in *demo_clean_exit=0*passed*demo_changed_exit=[1-9]*) tools/seed_keep.py $d $name "$line" $caught >/dev/null;; *) echo "  !! $name NOT RE-CONFIRMED";; esac
+  case "$line" in *demo_clean_exit=0*passed*demo_changed_exit=[1-9]*C[0-9][0-9]:rc=1*) tools/seed_keep.py $d $name "$line" $caught >/dev/null;; *) echo "  !! $name NOT RE-CONFIRMED";; esac
 }
 export -f one
 echo $names | tr ' ' '\n' | xargs -P $j -I{} bash -c 'one {}'
